@@ -171,10 +171,21 @@ func runC13(res *lp.Result) {
 		return false
 	}
 	// decodeWide reads an encoded integer back through the codec's widest destination
+	// (a number handed out by an earlier Decode belongs to the caller: it must still be the same number after later calls)
+	var prevBack, prevCopy *big.Int
+	var prevId string
 	decodeWide := func(c numCodec, enc []byte) (*big.Int, bool, error) {
 		if c.name == "varint" {
 			back := new(big.Int)
 			wasNull, err := c.codec.Decode(enc, back, v4)
+			if prevBack != nil && prevBack.Cmp(prevCopy) != 0 {
+				res.Add(lp.Finding{Kind: "violation", What: "number handed out by an earlier varint Decode changes when another value is decoded",
+					Input: fmt.Sprintf("decode varint %s into *big.Int, then decode %x into another *big.Int", prevId, enc), Impl: prevBack.String(), Model: prevCopy.String()})
+			}
+			prevBack, prevCopy, prevId = nil, nil, ""
+			if err == nil && !wasNull {
+				prevBack, prevCopy, prevId = back, new(big.Int).Set(back), fmt.Sprintf("%x", enc)
+			}
 			return back, wasNull, err
 		}
 		var back int64
@@ -220,7 +231,14 @@ func runC13(res *lp.Result) {
 		}
 		// *big.Int and string sources
 		for _, v := range cands {
-			for _, src := range []interface{}{new(big.Int).Set(v), v.String()} {
+			// (strings also zero-padded and with an explicit plus sign: decimal notation, whatever it looks like)
+			padded := "00" + v.String()
+			if v.Sign() < 0 {
+				padded = "-0" + v.String()[1:]
+			} else if v.Sign() > 0 {
+				padded = "+0" + v.String()
+			}
+			for _, src := range []interface{}{new(big.Int).Set(v), v.String(), padded} {
 				if _, isBig := src.(*big.Int); isBig && !hasEntry(c.toFn, "big") {
 					continue
 				}
@@ -228,6 +246,9 @@ func runC13(res *lp.Result) {
 					continue
 				}
 				id := fmt.Sprintf("encode %s <- %T %s", c.name, src, v)
+				if str, ok := src.(string); ok {
+					id = fmt.Sprintf("encode %s <- string %q", c.name, str)
+				}
 				res.Case(id, v.Sign() != 0)
 				enc, err := c.codec.Encode(src, v4)
 				fits := inR(v, c.lo, c.hi)
